@@ -263,6 +263,15 @@ def precedence(ses, rep):
                                       "find_config_file is given current_directory.join(path).parent() (or the cwd itself for plain stdin)")
                 if r == "sat":
                     flagged.append((oid + "/search-starts-from-the-working-directory", "the configuration search does not start from a path resolved against the working directory", "search", {}))
+                # .. and it is the LEXICAL directory of that path ("walking up from the file's directory"): built with join / parent only; a call
+                # that asks the file system where the path really lives (canonicalize, read_link, metadata) moves a symlinked file into another tree
+                P_ = Prov(ex, o)
+                via = sorted({ex.havoc_calls[o_][0].split("::")[-1] for o_ in P_.of(start_dir) if o_ in ex.havoc_calls})
+                resolving = [c_ for c_ in via if c_ in ("canonicalize", "read_link", "symlink_metadata", "metadata", "absolutize", "realpath")]
+                r, m = ses.obligation(oid + "/search-directory-is-lexical", pc + [z3.Not(has_forced)], z3.BoolVal(bool(resolving)),
+                                      "the start directory is computed from (working directory, path) without consulting the file system")
+                if r == "sat":
+                    flagged.append((oid + "/search-directory-is-lexical", f"the search directory goes through {resolving}: a symlinked file is configured from where its target lives", "symlink", {}))
                 sres = searches[-1][2]
                 okv = ex.lazy_child(o.state, sres, ("vfield", "Ok", 0), "Option<Config>", ".Ok.0")
                 found = ex.discr(o.state, okv) == 1
@@ -330,6 +339,11 @@ def battery():
                                             "d/u.lua": SRC, "d/u_spec.lua": SRC}, ["--num-threads", "1", "d/u_spec.lua", "d/u.lua"], {"d/u.lua": OUT("   "), "d/u_spec.lua": OUT("  ")}),
         ("two-files-same-dir-cache", {"a/stylua.toml": W3, "a/f.lua": SRC, "a/g.lua": SRC, "h.lua": SRC}, ["a/f.lua", "h.lua", "a/g.lua"],
          {"a/f.lua": OUT("   "), "a/g.lua": OUT("   "), "h.lua": OUT("\t")}),
+        ("dotted-nearer-than-plain", {"stylua.toml": W2, "pkg/.stylua.toml": W3, "pkg/a.lua": SRC, "pkg/sub/b.lua": SRC, "c.lua": SRC}, ["pkg/a.lua", "pkg/sub", "c.lua"],
+         {"pkg/a.lua": OUT("   "), "pkg/sub/b.lua": OUT("   "), "c.lua": OUT("  ")}),
+        ("plain-nearer-than-dotted", {".stylua.toml": W2, "pkg/stylua.toml": W3, "pkg/a.lua": SRC, "c.lua": SRC}, ["pkg/a.lua", "c.lua"], {"pkg/a.lua": OUT("   "), "c.lua": OUT("  ")}),
+        ("symlinked-file-uses-the-directory-it-is-in", {"src/stylua.toml": W3, "vendor/real.lua": SRC, "src/link.lua": ("symlink", "../vendor/real.lua")}, ["src/link.lua"],
+         {"vendor/real.lua": OUT("   ")}),
         ("sibling-not-used", {"a/stylua.toml": W3, "b/f.lua": SRC}, ["b/f.lua"], {"b/f.lua": OUT("\t")}),
         ("stdin-cwd", {"stylua.toml": W2}, ["-"], None),
     ]
@@ -395,7 +409,14 @@ def run(ses, rep):
                         "HashMap get/insert behave as a map keyed by directory"]
     rep.outside += ["toml decoding, ec4rs file discovery, the XDG/HOME probing order inside search_config_locations (one symbolic Bool)",
                     "files outside the working directory without --search-parent-directories"]
-    flagged = search(ses, rep) + precedence(ses, rep)
+    flagged = []
+    for kern in (search, precedence):
+        try:
+            flagged += kern(ses, rep)
+        except Inconclusive as e:
+            # the search is written in a way the engine cannot follow within its budgets (e.g. collected into a Vec first): nothing is
+            # decided symbolically; the directory-tree battery says whether the documented search is still what the binary does
+            flagged.append((f"{kern.__name__}/encodable", f"{kern.__name__} kernel not applicable to the current implementation ({str(e)[:120]})", "engine", {}))
     # "with command-line format options overriding whichever was found": every route ends in load_overrides
     from .. import cfgorigin
     routes = cfgorigin.analyse(ses, rep)
